@@ -384,8 +384,13 @@ func (c *Conn) Write(b []byte) (int, error) {
 		if sz > len(c.writeBuf) {
 			break
 		}
-		if err := c.inspectWrite(c.writeBuf[:sz]); err != nil {
-			return 0, err
+		// Once the write side is in passthrough mode the stream is no
+		// longer interpreted, even if more records were buffered by
+		// the same Write.
+		if !c.writePassthrough {
+			if err := c.inspectWrite(c.writeBuf[:sz]); err != nil {
+				return 0, err
+			}
 		}
 		n, err := c.Conn.Write(c.writeBuf[:sz])
 		c.writeBuf = c.writeBuf[n:]
